@@ -64,7 +64,15 @@ func jobsFor(id, tier string) []*Job {
 		j.Name, j.Func, j.Params = name, fn, params
 		return j
 	}
+	wmk := func(name, fn string, params [][]int) Job {
+		j := mk(name, fn, params)
+		j.Setup = "zzverifw.World"
+		return j
+	}
+	_ = wmk
 	switch id {
+	case "C12":
+		add(split(wmk("truth", "zzverifw.H_C12_truth", ints(0, 13)))...)
 	case "C10":
 		im := mk("bin", "zzverifw.H_C10_bin", ints(0, 4)) // + - * // % : Int theory with explicit wrap
 		im.IntMode = true
@@ -104,6 +112,8 @@ func assumptionsFor(id string) []string {
 		"harness oracles written from the property statement and docs (DESIGN.md Appendix B)",
 	}
 	switch id {
+	case "C12":
+		return append(common, "truth oracle for built-in kinds is the statement's list of zero values (0, 0.0, \"\", [], {}, %{}, nil, false); for the user-defined B it is the value B returns", "programs are parsed natively (parser.Parse bridge) and evaluated by the real evaluator in the bootstrapped world inside the engine")
 	case "C10":
 		return append(common,
 			"Int-theory encoding: int64 values are mathematical integers kept in range by explicit wrap-around; Go's truncated / and % are fresh q, r constrained by a = q*b + r, |r| < |b|, sign(r) in {0, sign(a)}",
@@ -119,6 +129,9 @@ func assumptionsFor(id string) []string {
 func boundsFor(id, tier string, jobs []*Job) map[string]interface{} {
 	b := map[string]interface{}{"tier": tier}
 	switch id {
+	case "C12":
+		b["condition_values"] = "int: any int64; float: any 64-bit pattern (NaN, infinities, signed zeros); str/arr/obj/map: empty and one-element; nil; true; false; Int.bear.new(v) for any int64 v; bear child of an array; object with user-defined B returning either boolean; range; function"
+		b["constructs"] = "c.B, `x if c else y`, `x if c`, !c, c && x, c || x, guarded return / raise / yield / defer (11 templates per condition value)"
 	case "C10":
 		b["operands"] = "a, b: any int64 (full 64-bit range) for + - * // % <=> / and unary -"
 		if tier == "thorough" {
@@ -141,6 +154,8 @@ func boundsFor(id, tier string, jobs []*Job) map[string]interface{} {
 
 func outsideFor(id string) []string {
 	switch id {
+	case "C12":
+		return []string{"conditions whose B raises or returns a non-boolean", "nesting of conditional constructs inside each other", "containers longer than one element (B of arr/str/obj/map depends only on emptiness in the code read)", "match/case constructs"}
 	case "C10":
 		return []string{"exponents above 63 (only bases -1, 0, 1 and -2**63 fit)", "negative exponents and powers that do not fit (statement is silent)", "Float operands and the nil-as-identity convention", "Int descendants (bear/new) as operands", "parsing of the operator expression (C02) and dispatch through Eval (see jobs: operators are called through the IntProps table)"}
 	case "C11":
